@@ -29,6 +29,64 @@ theorem iterator_facts : whileSticky = true ∧ whileStops false = true ∧ whil
     cursorLostReseeks = true ∧ mergeZeroesRight = true ∧ putBumpsGen = true ∧ deleteBumpsGen = true ∧
     seekSetsGen = true ∧ seekFirstSetsGen = true ∧ seekLastSetsGen = true := by decide
 
+/-- A cursor parked in a node that has left the tree (merged away: `right.n = 0`; collapsed root: `n = 0`) and whose
+generation is stale considers itself lost — so it re-seeks by key instead of reading the dead node. -/
+theorem retired_nodes_are_lost (cmp : K → K → Int) (t : Tree K V) (c : Cursor K) (p : Pos K) (hp : c.pos = some p)
+    (hg : c.gen ≠ t.gen) (hf : findNode p.id t.root = none) (_hz : mergeZeroesRight = true := by decide) :
+    lostAt cmp t c = true := by
+  have hg' : ¬ ((c.gen : Int) = (t.gen : Int)) := by omega
+  simp [lostAt, hp, hf, lost, hg']
+
+/-- A cursor that does not consider itself lost (the regenerated `lost()` expression is false) is parked on an
+entry of the current tree whose key is equivalent to the key it remembers. -/
+theorem cursor_valid_of_not_lost (cmp : K → K → Int) (hs : StrictWeak cmp) {t : Tree K V} {c : Cursor K} (hc : CInv t c)
+    {p : Pos K} (hp : c.pos = some p) (hl : lostAt cmp t c = false) :
+    ∃ y up e, At t.root p y up e ∧ cmp p.k e.1 = 0 :=
+  parked_of_not_lost hs hc hp hl
+
+/-- Navigation: from a valid position `cursor.Next` moves to the in-order successor (staying in the leaf, descending
+to the leftmost leaf of the next child, or climbing to the first ancestor with an entry to the right) and runs off the
+end exactly after the last entry; `cursor.Prev` symmetrically. `befOf ++ e :: aftOf` is the tree's in-order list split
+at the cursor's entry `e`. -/
+theorem cursor_next_is_successor {root : Node K V} {h : Nat} (t : Tree K V) (ht : t.root = root) (hb : Bal h root)
+    (hone : ∀ i, cnt i root ≤ 1) {p : Pos K} {y : Node K V} {up : List (Node K V × Nat)} {e : K × V}
+    (ha : At root p y up e) :
+    toList root = befOf up y p.i ++ e :: aftOf up y p.i ∧
+    (aftOf up y p.i = [] → nextCore t p = none) ∧
+    (∀ e' A', aftOf up y p.i = e' :: A' → ∃ p' y' up', nextCore t p = some p' ∧ At root p' y' up' e' ∧ p'.k = e'.1 ∧
+      befOf up' y' p'.i = befOf up y p.i ++ [e] ∧ aftOf up' y' p'.i = A') :=
+  ⟨at_toList hb ha, (next_step t ht hb hone ha).1, (next_step t ht hb hone ha).2⟩
+
+theorem cursor_prev_is_predecessor {root : Node K V} {h : Nat} (t : Tree K V) (ht : t.root = root) (hb : Bal h root)
+    (hone : ∀ i, cnt i root ≤ 1) {p : Pos K} {y : Node K V} {up : List (Node K V × Nat)} {e : K × V}
+    (ha : At root p y up e) :
+    (befOf up y p.i = [] → prevCore t p = none) ∧
+    (∀ B' e', befOf up y p.i = B' ++ [e'] → ∃ p' y' up', prevCore t p = some p' ∧ At root p' y' up' e' ∧ p'.k = e'.1 ∧
+      befOf up' y' p'.i = B' ∧ aftOf up' y' p'.i = e :: aftOf up y p.i) :=
+  prev_step t ht hb hone ha
+
+/-- The four seeks: `SeekFirstGreaterOrEqual`/`SeekFirstGreater` park on the least entry `≥ k` / `> k` (the rest of the
+contents from there on is what a forward iteration yields), `SeekLastLessOrEqual`/`SeekLastLess` on the greatest entry
+`≤ k` / `< k`; the comparison operators are the regenerated ones. -/
+theorem seeks_least_greatest (cmp : K → K → Int) (hs : StrictWeak cmp) {t : Tree K V} (hi : Inv cmp t) (c0 : Cursor K) (k : K) :
+    Fwd t (seekFirstGreaterOrEqual cmp t c0 k) ((toList t.root).dropWhile fun x => decide (0 < cmp k x.1)) ∧
+    Fwd t (seekFirstGreater cmp t c0 k) ((toList t.root).dropWhile fun x => decide (0 ≤ cmp k x.1)) ∧
+    Bwd t (seekLastLessOrEqual cmp t c0 k) ((toList t.root).reverse.dropWhile fun x => decide (cmp k x.1 < 0)) ∧
+    Bwd t (seekLastLess cmp t c0 k) ((toList t.root).reverse.dropWhile fun x => decide (cmp k x.1 ≤ 0)) := by
+  refine ⟨?_, ?_, ?_, ?_⟩
+  · have := seekFwd_spec hs hi seekFirstGreaterOrEqualStep (by intro c h; simp [seekFirstGreaterOrEqualStep, h])
+      (by intro c h; simp [seekFirstGreaterOrEqualStep]; omega) c0 k
+    simpa [seekFirstGreaterOrEqualStep, seekFirstGreaterOrEqual] using this
+  · have := seekFwd_spec hs hi seekFirstGreaterStep (by intro c h; simp [seekFirstGreaterStep]; omega)
+      (by intro c h; simp [seekFirstGreaterStep]; omega) c0 k
+    simpa [seekFirstGreaterStep, seekFirstGreater] using this
+  · have := seekBwd_spec hs hi seekLastLessOrEqualStep (by intro c h; simp [seekLastLessOrEqualStep, h])
+      (by intro c h; simp [seekLastLessOrEqualStep]; omega) c0 k
+    simpa [seekLastLessOrEqualStep, seekLastLessOrEqual] using this
+  · have := seekBwd_spec hs hi seekLastLessStep (by intro c h; simp [seekLastLessStep]; omega)
+      (by intro c h; simp [seekLastLessStep]; omega) c0 k
+    simpa [seekLastLessStep, seekLastLess] using this
+
 /-- **Refinement.** For every script that interleaves `Put`/`Delete` (of any keys) with the creation of
 `Range`/`RangeReverse` iterators (any bounds) and `Next` calls on any number of simultaneously live
 iterators, starting from any reachable tree with any set of live iterators: the model runs to completion
